@@ -4,6 +4,7 @@ import c05
 
 META = dict(c05.META)
 META['explanation'] = c05.META['explanation'].replace('connection-setup', 'CredSSP / NTLM (network level authentication)')
+META['explanation'] += " (R07.2 = R15.4) the exported session key is set on every path whatever the server flags; (R07.3) the SequenceOf element callback consumes input on every Ok path (yasna's read_sequence_of loops until it does not)."
 
 ENTRIES = ['nla::cssp::cssp_connect', 'nla::cssp::read_ts_server_challenge', 'nla::cssp::read_ts_validate', 'nla::cssp::read_public_certificate',
            '<nla::ntlm::Ntlm as nla::sspi::AuthenticationProtocol>::read_challenge_message',
